@@ -37,6 +37,8 @@ FloatRel(op, f, x, y, z, r) ==
     [] op = "fnms"     -> FmaOK(f, FlipSign(f, x), y, FlipSign(f, z), r)
     [] op = "min"      -> FMinOK(f, x, y, r)
     [] op = "max"      -> FMaxOK(f, x, y, r)
+    [] op = "clip"     -> (IsNaN(f, x) \/ IsNaN(f, y) \/ IsNaN(f, z) \/ ~FLe(f, y, z)) \/
+                          (IF FLt(f, x, y) THEN r = y ELSE IF FLt(f, z, x) THEN r = z ELSE r = x)        \* clip(x, lo, hi), ordered non-NaN bounds
     [] op = "sign"     -> IF IsNaN(f, x) THEN IsNaN(f, r) ELSE IF IsZeroF(f, x) THEN IsZeroF(f, r) ELSE r = WithSign(f, One_(f), SignOf(f, x))
     [] op = "signnz"   -> (IsNaN(f, x) \/ IsZeroF(f, x)) \/ r = WithSign(f, One_(f), SignOf(f, x))
     [] op = "nextafter" -> NextAfterOK(f, x, y, r)
